@@ -75,6 +75,14 @@ CHECKS = {
   text="Reference value in Coq (Spec/Minimax.v): plain negamax over legal moves with check extension, capture-only quiescence with stand-pat, the engine's evaluation at leaves, mate by distance, stalemate 0, the two horizon rules. Proved: at depth <= 2 neither the null-move nor the LMR condition can hold, children stay at depth <= 2; and the oracle's evaluator -- a fail-soft alpha-beta over an abstract expansion function (Spec/AlphaBeta.v) -- returns exactly the plain negamax value for every tree (induction over fuel and children, window relation). Per run: every printed iteration score of the real engine at depth 1 and 2 with the TT bypassed equals the extracted reference on ~400 legal positions (thorough: thousands); engine = model on the same searches.",
   note=TB + " PARTIAL: exactness of the engine's own fail-hard alpha-beta/PVS skeleton w.r.t. the reference (C19_full) is compared on generated positions, not yet proved; iterations that fail their aspiration window print nothing and are counted, not compared.",
   tech="Coq proof (pruning inactive at depth<=2; verified alpha-beta reference evaluator) + extracted reference vs engine", ref="DESIGN.md 6 C19"),
+ 'C05': dict(
+  text="After fix 49080c5: proved in Coq for every position and token: `position ... moves` accepts a token exactly when some legal move prints as it, the accepted move is legal and prints as the token; UCI strings determine (from, to, promotion kind) (finite reflection over 64x64x9); whenever a `position` command is accepted the recorded history is the key of the base position followed by the key of every position of the game in order, and the game is the last of them. The string-level model of new_from_fen / parse_position (trim, split, digit runs, parse::<u8/u16>, skip/take_while, release-build wrap-arounds) is tied to the real parsers on well-formed and mutated inputs. Field-by-field FEN round trip, acceptance/rejection of mutated move strings and the `d` display are decided per run (independent FEN printer -> real parser -> 18 fields; games up to 60 plies (thorough 300); display through the real main loop).",
+  note=TB + " PARTIAL: the FEN round-trip theorem (printer/parser inverse for every legal position) is not proved; it is checked on all generated positions. Repetition-table capacity 1000 is a modelled boundary (insert beyond it panics in model and code).",
+  tech="Coq proof (move-string acceptance, history recording, UCI injectivity) + parser correspondence incl. malformed inputs", ref="DESIGN.md 6 C05"),
+ 'C13': dict(
+  text="After fixes 8ff4e2c, 0de86eb, b1eb103, ac47405: the UCI main loop and poll_input's handling of input during a search are modelled as a state machine over input lines whose arrival relative to the search's polls is part of the input. Proved for every engine state, remaining input and timing: uci->uciok, idle isready->readyok, quit exits, ucinewgame clears; during a search isready is answered in place and does not stop the search, stop stops it, every other line stops it and is handed back to the main loop, nothing behind the stopping line is touched, readyok count = isready lines taken; every session terminates (EOF delivered as quit): the loop ends by Exit or a Rust panic, never starves; every modelled go prints exactly one bestmove (C03). Tie: scripted sessions through the REAL main loop (scripted-input hook, extra polls) must produce the model's transcript line by line; the liveness rules are also checked directly on the engine transcript; black-box runs through a real pipe with real timing sample the thread/OS part.",
+  note=TB + " PARTIAL by nature: wall-clock promptness, thread scheduling, the OS pipe and process exit are runtime (black-box sampled, not modelled). Not modelled: help, perft, psuite, sbench, move, clock-based go (clock arithmetic is C10). Trusted: std::sync::mpsc FIFO.",
+  tech="Coq proof (state-machine model: dispatch, prefix consumption, termination for all inputs) + transcript-exact scripted sessions + black-box pipe runs", ref="DESIGN.md 6 C13"),
 }
 
 def main():
